@@ -3314,7 +3314,8 @@ class SEVM:
                     state.set_top(w1.bitwise_xor(state.topi()))
 
                 elif opcode == OP_NOT:
-                    state.set_top(state.top().bitwise_not())
+                    # NOT is bitwise on the 256-bit word, even if the operand is a Bool
+                    state.set_top(state.topi().bitwise_not())
 
                 elif OP_MUL <= opcode <= OP_SMOD:  # MUL SUB DIV SDIV MOD SMOD
                     w1 = state.popi()
